@@ -699,10 +699,16 @@ func (h *v20Hist) follow(from int) {
 		case k == v20GateRetrieve:
 			h.pc = v20PcSetup
 			h.liveGen = -1
+			if from == v20PcReload {
+				h.drained(true)
+			}
 			h.emit(v20LRun, 0, true)
 		case k == 0:
 			h.pc = v20PcDone
 			h.liveGen = -1
+			if from == v20PcReload || from == v20PcFinal {
+				h.drained(from == v20PcReload)
+			}
 			h.emit(v20LRun, 0, true)
 		case k == -1:
 			h.pc = v20PcIdle
@@ -735,6 +741,28 @@ func (h *v20Hist) follow(from int) {
 	}
 }
 
+// The collector has shut a service down: shutdownService received (and discarded) every sender that
+// was blocked on asyncErrorChannel meanwhile.  A sender that is NOT released is reported.
+func (h *v20Hist) drained(retire bool) {
+	for _, sd := range h.asyncQ {
+		// a component that reported a fatal error holds its status reporter's mutex: it MUST have been
+		// received, or service.Shutdown could not have finished.  A plain sender is received as long as
+		// the draining goroutine runs before service.Shutdown returns: certain in a reload (the gate sits
+		// inside service.Shutdown), a race the harness cannot decide in shutdown() — not required there.
+		if sd.fatalGen < 0 && !retire {
+			continue
+		}
+		for t0 := time.Now(); !sd.done.Load() && time.Since(t0) < 5*time.Second; {
+			time.Sleep(100 * time.Microsecond)
+		}
+		if !sd.done.Load() {
+			h.fail("async-sender-not-drained", fmt.Sprintf("a sender on asyncErrorChannel (fatal generation %d) is still blocked after the collector shut the service down", sd.fatalGen))
+		}
+	}
+	h.stats["async_drained"] += len(h.asyncQ)
+	h.asyncQ = nil
+}
+
 func (h *v20Hist) afterTake(gate int) {
 	b := h.observeBranch(gate)
 	if gate == v20GateRetire {
@@ -764,6 +792,13 @@ func (h *v20Hist) dead(what string) {
 }
 
 func (h *v20Hist) releaseGate() {
+	if h.pc == v20PcReload {
+		// Run is parked inside service.Shutdown of the retiring service: shutdownService's goroutine is
+		// receiving.  Let it receive what is pending BEFORE the shutdown goes on (a legal schedule; if
+		// service.Shutdown finishes first the goroutine may leave plain senders queued — a race of the
+		// real code that the model does not have: see NOTES).
+		h.drained(true)
+	}
 	h.checkWatchSenders()
 	h.w.release <- struct{}{}
 }
@@ -832,20 +867,28 @@ func (h *v20Hist) injWatch(e bool) {
 // has received the first: a sender that has returned while Run is parked was dropped.
 func (h *v20Hist) checkWatchSenders() {
 	if h.pc == v20PcFinal && len(h.watchS) >= 2 {
-		// shutdown() has begun: Resolver.Shutdown closed the watcher channel before the gate.  A
-		// provider goroutine that was still blocked sending its notification panics there.
+		// shutdown() has begun: Resolver.Shutdown has released (before the gate) every provider goroutine
+		// that was still blocked in the watcher function behind the buffered notification; its
+		// notification is dropped — nobody is going to re-fetch the configuration.  Only here is a
+		// notification that returns undelivered not "lost".  A panic there is the old defect
+		// C20-WATCH-SEND-ON-CLOSED (fixed by bc929f066) coming back.
 		for i := len(h.watchS) - 1; i >= 1; i-- {
 			ws := h.watchS[i]
-			for t0 := time.Now(); !ws.done.Load() && time.Since(t0) < 3*time.Second; {
+			for t0 := time.Now(); !ws.done.Load() && time.Since(t0) < 5*time.Second; {
 				time.Sleep(100 * time.Microsecond)
 			}
-			if ws.panicked.Load() {
+			switch {
+			case ws.panicked.Load():
 				msg, _ := ws.msg.Load().(string)
 				h.senderPanics++
 				h.stats["watch_sender_panics"]++
 				h.fail("watch-sender-panics", fmt.Sprintf("provider goroutine blocked in the watcher function at=resolver-shutdown pending=%d state=%s: %s", len(h.watchS), h.w.col.GetState(), msg))
-				h.watchQ, h.watchS = h.watchQ[:i], h.watchS[:i]
+			case ws.done.Load():
+				h.stats["watch_released_at_shutdown"]++
+			default:
+				h.fail("watch-sender-still-blocked", fmt.Sprintf("provider goroutine still blocked in the watcher function after Resolver.Shutdown began (pending=%d)", len(h.watchS)))
 			}
+			h.watchQ, h.watchS = h.watchQ[:i], h.watchS[:i]
 		}
 	}
 	for i, ws := range h.watchS {
@@ -879,11 +922,20 @@ func (h *v20Hist) injAsync(fatal bool) {
 		h.w.mu.Lock()
 		host := h.w.hosts[g][len(h.w.hosts[g])-s.ord] // the receiver first, then the component started before it
 		h.w.mu.Unlock()
+		// the component's status before the fatal report: OK (it was started), or RecoverableError
+		// (an error it did not recover from escalates) — both may be followed by FatalError
+		pre := "OK"
+		if h.r.Bool() {
+			pre = "RecoverableError"
+			componentstatus.ReportStatus(host, componentstatus.NewRecoverableErrorEvent(errors.New("v20-recoverable")))
+		}
+		h.stats["fatal_from_"+pre]++
 		go func() {
 			componentstatus.ReportStatus(host, componentstatus.NewFatalErrorEvent(errors.New("v20-fatal")))
 			s.done.Store(true)
 		}()
-		// the sender is inside the reporter's critical section once the status watcher saw the event
+		// the sender is inside the reporter's critical section once the status watcher saw the event;
+		// a report that RETURNS without the event having been seen was swallowed on the way
 		t0 := time.Now()
 		for {
 			h.w.mu.Lock()
@@ -891,6 +943,17 @@ func (h *v20Hist) injAsync(fatal bool) {
 			h.w.mu.Unlock()
 			if in || time.Since(t0) > v20Deadline {
 				break
+			}
+			if s.done.Load() {
+				h.w.mu.Lock()
+				in = h.w.fatalSeen[g] >= s.ord
+				h.w.mu.Unlock()
+				if !in {
+					h.fail("fatal-error-not-delivered", fmt.Sprintf("a component of the running service (generation %d, previous status %s) reported StatusFatalError; the report returned but never reached the status watchers / asyncErrorChannel: the collector keeps running", g, pre))
+					h.fatalUsed[g]--
+					h.emit(v20LAsync, 1+g, h.pc != v20PcIdle)
+					return
+				}
 			}
 			time.Sleep(200 * time.Microsecond)
 		}
@@ -906,6 +969,12 @@ func (h *v20Hist) injAsync(fatal bool) {
 		case <-h.w.quit:
 		}
 	}()
+	if h.pc == v20PcReload {
+		// the gate sits inside service.Shutdown: shutdownService's goroutine is receiving right now
+		for t0 := time.Now(); !s.done.Load() && time.Since(t0) < 5*time.Second; {
+			time.Sleep(100 * time.Microsecond)
+		}
+	}
 	h.asyncQ = append(h.asyncQ, s)
 	h.emit(v20LAsync, 0, h.pc != v20PcIdle)
 }
@@ -1003,7 +1072,8 @@ var v20Scripts = func() [][]string {
 	for i := 0; i < 10; i++ {
 		l = append(l, panicW)
 	}
-	return append(l, deadlockW, deadlockW)
+	drainW := []string{"run", "async", "change", "run", "run", "run"}
+	return append(l, deadlockW, deadlockW, drainW, drainW, drainW, drainW)
 }()
 
 type v20Result struct {
@@ -1028,9 +1098,9 @@ func v20RunHistory(idx int) v20Result {
 	defer h.cancel()
 
 	maxLabels := 8 + r.Intn(18)
-	h.closeRegion = r.Intn(100) < 10
+	h.closeRegion = true // stop events around a blocked provider goroutine are ordinary histories since bc929f066
 	fatalBudget := 0
-	if r.Intn(100) < 9 { // histories that may enter the known-finding region (blocked fatal sender)
+	if r.Intn(100) < 25 { // histories in which components report fatal errors (ordinary since 98f2ce3d0)
 		fatalBudget = 1 + r.Intn(2)
 	}
 	// replay of the recorded witnesses on the implementation: the first histories follow a script
@@ -1066,6 +1136,8 @@ func v20RunHistory(idx int) v20Result {
 				h.injSig(0)
 			case "fatal":
 				h.injAsync(true)
+			case "async":
+				h.injAsync(false)
 			}
 			if h.pc == v20PcIdle && h.pending() {
 				h.follow(v20PcIdle)
